@@ -272,8 +272,10 @@ func ruleT9(c *Ctx, rule string) {
 				} else {
 					r.Finding(rule, key, pos, fmt.Sprintf("the token takes CheckForPostTraverse from operation type(s) %v, which do not set it: a `.key` or `[k]` directly after the closing parenthesis of this lexeme is not treated as a traversal of its result, unlike after a plain `)`", off))
 				}
-			default:
+			case "false":
 				r.Finding(rule, key, pos, "the token for a lexeme ending in ')' is not flagged CheckForPostTraverse: a `.key` or `[k]` directly after it is not treated as a traversal of its result, unlike after a plain `)`")
+			default:
+				r.Undecided(rule, key, pos, "the value stored into CheckForPostTraverse could not be resolved ("+lr.Problem+")")
 			}
 		}
 	}
@@ -640,9 +642,98 @@ func aliasReentryGuarded(from, to *ssa.Function, call ssa.CallInstruction, inSCC
 // element (its kind, its tag, its size) in front of the Copy hands document
 // nodes out by reference for some inputs.
 func ruleBindCopies(c *Ctx, rule string) {
-	c.R.Rule(rule, "`as $v` binds a copy of every matched node, whatever the node is", 1)
-	ruleNoFilter(c, rule, "variableLoopSingleChild", map[string]bool{"Copy": true}, nil,
-		"the variable is bound to the document's own node for such elements, so a later update of the variable's value (`$d | .x = 1`) rewrites the place it was read from")
+	r := c.R
+	r.Rule(rule, "`as $v` binds a copy of every matched node, whatever the node is", 1)
+	consequence := "the variable is bound to the document's own node for such elements, so a later update of the variable's value (`$d | .x = 1`) rewrites the place it was read from"
+	fn := c.libFunc("variableLoopSingleChild")
+	if fn == nil {
+		r.Fatal("anchor missing: variableLoopSingleChild")
+		return
+	}
+	isCopy := func(f *ssa.Function) bool { return f != nil && f.Name() == "Copy" && f.Signature.Recv() != nil }
+	direct := false
+	helpers := map[string]*ssa.Function{}
+	eachInstr(fn, func(ins ssa.Instruction) {
+		call, ok := ins.(*ssa.Call)
+		if !ok || call.Call.StaticCallee() == nil {
+			return
+		}
+		callee := call.Call.StaticCallee()
+		if isCopy(callee) {
+			direct = true
+			return
+		}
+		// a helper that is handed the element and makes the copy
+		if callee.Blocks == nil || !strings.HasPrefix(funcKey(callee), "yqlib.") {
+			return
+		}
+		eachInstr(callee, func(i2 ssa.Instruction) {
+			if c2, ok := i2.(*ssa.Call); ok && isCopy(c2.Call.StaticCallee()) {
+				if copiedParam(c2) != nil {
+					helpers[callee.Name()] = callee
+				}
+			}
+		})
+	})
+	if direct {
+		ruleNoFilter(c, rule, "variableLoopSingleChild", map[string]bool{"Copy": true}, nil, consequence)
+		return
+	}
+	if len(helpers) == 0 {
+		r.Undecided(rule, "variableLoopSingleChild/element-action", c.P.pos(fn.Pos()), "neither variableLoopSingleChild nor a helper it hands the element to calls Copy(): shape not recognised")
+		return
+	}
+	names := map[string]bool{}
+	for n := range helpers {
+		names[n] = true
+	}
+	// the helper is reached for every element …
+	ruleNoFilter(c, rule, "variableLoopSingleChild", names, nil, consequence)
+	// … and inside it the copy does not depend on the node
+	for _, h := range helpers {
+		eachInstr(h, func(ins ssa.Instruction) {
+			c2, ok := ins.(*ssa.Call)
+			if !ok || !isCopy(c2.Call.StaticCallee()) {
+				return
+			}
+			p := copiedParam(c2)
+			if p == nil {
+				return
+			}
+			key := fmt.Sprintf("%s/Copy(%s)", h.Name(), p.Name())
+			var bad []string
+			dominatingConds(c2.Block(), func(cond ssa.Value, taken bool, at *ssa.BasicBlock) {
+				if dependsOnValue(cond, p, 0) || dependsOnElemDeep(cond, p, 0) {
+					bad = append(bad, describeCond(c, cond))
+				}
+			})
+			if len(bad) == 0 {
+				r.Discharge(rule, key, c.P.pos(c2.Pos()), "inside the helper the copy is made whatever the node is")
+			} else {
+				r.Finding(rule, key, c.P.pos(c2.Pos()), fmt.Sprintf("Copy is skipped depending on the node itself (%s): %s", strings.Join(bad, "; "), consequence))
+			}
+		})
+	}
+}
+
+// createsChild: f is CreateChild, or a module helper that calls it (two levels).
+func createsChild(f *ssa.Function, d int) bool {
+	if f == nil {
+		return false
+	}
+	if f.Name() == "CreateChild" {
+		return true
+	}
+	if d >= 2 || f.Blocks == nil || !strings.HasPrefix(funcKey(f), "yqlib.") {
+		return false
+	}
+	found := false
+	eachInstr(f, func(ins ssa.Instruction) {
+		if cc := callCommon(ins); cc != nil && cc.StaticCallee() != nil && createsChild(cc.StaticCallee(), d+1) {
+			found = true
+		}
+	})
+	return found
 }
 
 // ---- U9: auto-creation does not depend on how the key is spelt ---------------------------------
@@ -670,7 +761,7 @@ func ruleU9(c *Ctx, rule string) {
 	n := 0
 	eachInstr(fn, func(ins ssa.Instruction) {
 		call, ok := ins.(*ssa.Call)
-		if !ok || call.Call.StaticCallee() == nil || call.Call.StaticCallee().Name() != "CreateChild" {
+		if !ok || call.Call.StaticCallee() == nil || !createsChild(call.Call.StaticCallee(), 0) {
 			return
 		}
 		n++
@@ -979,4 +1070,19 @@ func settingReadDecidesSomethingElse(ld *ssa.UnOp, isOwnStore func(ssa.Instructi
 		return false
 	}
 	return foreign(ld, 0)
+}
+
+// copiedParam: the parameter whose node a Copy() call copies: the receiver is the
+// parameter itself, or el.Value.(*CandidateNode) for a *list.Element parameter el.
+func copiedParam(copyCall *ssa.Call) *ssa.Parameter {
+	recv := copyCall.Call.Args[0]
+	if p, ok := recv.(*ssa.Parameter); ok {
+		return p
+	}
+	if el := listElementOf(recv); el != nil {
+		if p, ok := el.(*ssa.Parameter); ok {
+			return p
+		}
+	}
+	return nil
 }
